@@ -182,11 +182,15 @@ func cmdCheck(record bool, args []string) int {
 	}
 	tLoad := time.Since(t0).Seconds()
 	idx := w.funcIndex()
+	w.rebindClosures(idx)
 	var fns []*ssa.Function
 	var cons []*Contract
 	var translErrs []string
 	for _, n := range pc.Functions {
 		full := expandFuncName(n)
+		if a := w.closureAlias[full]; a != "" {
+			full = a
+		}
 		if *only != "" && !strings.Contains(full, *only) {
 			continue
 		}
